@@ -437,6 +437,21 @@ func genC17(tier string, rng *Rng) {
 					c17count("gfx_len", name)
 					c17count("gfx_type", fmt.Sprint(ty))
 					c17gfx(ty, W, H, c17pattern(rng, ln, rng.Range(1, 5)), tw, th)
+					if lk == 0 && W > 0 && H > 0 {
+						// content with structure: all zero, a zero prefix of every length class, a zero tail (seed
+						// C17-18: a "same colour word as the previous pixel" shortcut whose initial state is word 0)
+						z := make([]byte, need)
+						c17gfx(ty, W, H, z, tw, th)
+						for _, cut := range []int{1, 2, need / 2, need - 1} {
+							if cut > 0 && cut < need {
+								d := c17pattern(rng, need, 1)
+								for i := 0; i < cut; i++ {
+									d[i] = 0
+								}
+								c17gfx(ty, W, H, d, tw, th)
+							}
+						}
+					}
 				}
 			}
 		}
